@@ -1,14 +1,227 @@
 import Crv.Driver.Util
-/-! Line-protocol driver for stream `ocsp` (stub: every op is `bad-op` until the model is wired in). -/
-namespace Crv.Driver.Ocsp
+import Crv.Ocsp
+import Crv.Generated.Ocsp
+/-!
+Line-protocol driver for stream `ocsp` (C02, C05, C14). One model state: the process-global cache table.
 
-/-- Model state carried between the lines of this stream. -/
+  flush                                         → ok
+  evict <defMs> <nowMs> <nu|n>                  → <lifeMs>                 calculateEvictionTime
+  filter <urlhex>                               → 0|1                      filterHTTPOCSPServers on one URL
+  key <issuerhex> <subjecthex> <serial>         → <keyhex>                 cache key
+  parse <serial> <cands> <body>                 → none | <g|r|u> nu=<n|ms> parseOcspResponse
+  look <strict> <defMs> <t> <cert> <chain> <servers>
+                                                → <good|revoked|error> req=<s.c,…|-> hit=<0|1> store=<lifeMs|-> cands=<n>
+
+  <cert>    issuerhex,subjecthex,serial,alg,<aki>       aki: n | x | a/<kidhex|n>/<serial|n>/<issuerhex|n>
+  <chain>   - | entry;entry;…   entry = certId,key,subjecthex,issuerhex,serial,<skihex|n>,alg
+  <cands>   - | certId:key;…
+  <servers> - | urlhex=<sel>:<beh>|<sel>:<beh>…;…        sel = candidate certId or *  (first match wins; no match = fetch error)
+  <beh>/<body>  E (fetch error the responder log shows) | X (fetch error nobody can observe: refused, TLS failure,
+                unsupported scheme — such requests are left out of `req=`) | G (garbage) | R<status>~<typeBasic>~<basicParses>~<ridOk>~<signed>~<emb>~<singles>
+  <emb>     n | parses.certId.key.certSigned.eku
+  <singles> n | serial.<g|r|u>.<nu|n>.crit.hashKnown+…
+
+Signatures: `V key signed := key == signed` (the harness numbers public keys from 1 and gives every signed object the
+number of the key it verifies under, 0 if none of the keys in play).
+Before each `look` the idealised expiration check of cache2go runs at `t` (`Cache.sweep`).
+-/
+namespace Crv.Driver.Ocsp
+open Crv Crv.Ocsp Crv.Generated
+
 structure State where
-  dummy : Unit := ()
+  table : Table := []
 
 def init : State := {}
 
-/-- One line (already split into words, stream tag removed) → new state and the answer line. -/
-def step (s : State) (ws : List String) : State × String := (s, "bad-op")
+def Vd : Key → Signed → Bool := fun k s => k == s
+
+def strOfHex (h : String) : Option Str := (parseHex h).map (fun bs => bs.map (fun b => Char.ofNat b.toNat))
+
+def natsOfHex (h : String) : Option (List Nat) := (parseHex h).map (fun bs => bs.map (fun b => b.toNat))
+
+def optOf {α : Type} (f : String → Option α) (s : String) : Option (Option α) :=
+  if s = "n" then some none else (f s).map some
+
+def bool01 (s : String) : Option Bool :=
+  if s = "1" then some true else if s = "0" then some false else none
+
+def listOf {α : Type} (sep : String) (f : String → Option α) (s : String) (empty : String := "-") : Option (List α) :=
+  if s = empty then some [] else (s.splitOn sep).mapM f
+
+def parseStatus (s : String) : Option CertStatus :=
+  if s = "g" then some .good else if s = "r" then some .revoked else if s = "u" then some .unknown else none
+
+def parseSingle (s : String) : Option Single :=
+  match s.splitOn "." with
+  | [ser, st, nu, cr, hk] => do
+    let ser ← ser.toNat?
+    let st ← parseStatus st
+    let nu ← optOf String.toNat? nu
+    let cr ← bool01 cr
+    let hk ← bool01 hk
+    pure { serial := ser, status := st, nextUpdate := nu, criticalExt := cr, hashKnown := hk }
+  | _ => none
+
+def parseEmb (s : String) : Option (Option Embedded) :=
+  if s = "n" then some none else
+  match s.splitOn "." with
+  | [p, id, k, cs, eku] => do
+    let p ← bool01 p
+    let id ← id.toNat?
+    let k ← k.toNat?
+    let cs ← cs.toNat?
+    let eku ← bool01 eku
+    pure (some { parses := p, certId := id, key := k, certSigned := cs, ocspEku := eku })
+  | _ => none
+
+def parseResp (s : String) : Option Resp :=
+  match s.splitOn "~" with
+  | [st, tb, bp, rid, sg, emb, singles] => do
+    let st ← st.toNat?
+    let tb ← bool01 tb
+    let bp ← bool01 bp
+    let rid ← bool01 rid
+    let sg ← sg.toNat?
+    let emb ← parseEmb emb
+    let singles ← listOf "+" parseSingle singles "n"
+    pure { respStatus := st, typeBasic := tb, basicParses := bp, singles := singles, responderIdOk := rid,
+           embedded := emb, signed := sg }
+  | _ => none
+
+def parseFetch (s : String) : Option Fetch :=
+  if s = "E" then some .error
+  else if s = "G" then some (.body .garbage)
+  else if s.startsWith "R" then (parseResp (s.drop 1).toString).map (fun r => .body (.resp r))
+  else none
+
+def parseCand (s : String) : Option Cand :=
+  match s.splitOn ":" with
+  | [id, k] => do
+    let id ← id.toNat?
+    let k ← k.toNat?
+    pure { certId := id, key := k }
+  | _ => none
+
+def parseAki (s : String) : Option (Option (Option Aki)) :=
+  if s = "n" then some none
+  else if s = "x" then some (some none)
+  else match s.splitOn "/" with
+    | ["a", kid, ser, iss] => do
+      let kid ← optOf natsOfHex kid
+      let ser ← optOf String.toNat? ser
+      let iss ← optOf strOfHex iss
+      pure (some (some { keyId := kid, certSerial := ser, certIssuer := iss }))
+    | _ => none
+
+def parseCert (s : String) (servers : List Str) : Option Cert :=
+  match s.splitOn "," with
+  | [iss, subj, ser, alg, aki] => do
+    let iss ← strOfHex iss
+    let subj ← strOfHex subj
+    let ser ← ser.toNat?
+    let alg ← alg.toNat?
+    let aki ← parseAki aki
+    pure { issuer := iss, subject := subj, serial := ser, servers := servers, alg := alg, aki := aki }
+  | _ => none
+
+def parseChainCert (s : String) : Option ChainCert :=
+  match s.splitOn "," with
+  | [id, k, subj, iss, ser, ski, alg] => do
+    let id ← id.toNat?
+    let k ← k.toNat?
+    let subj ← strOfHex subj
+    let iss ← strOfHex iss
+    let ser ← ser.toNat?
+    let ski ← optOf natsOfHex ski
+    let alg ← alg.toNat?
+    pure { certId := id, key := k, subject := subj, issuer := iss, serial := ser, ski := ski, alg := alg }
+  | _ => none
+
+/-- One scripted responder: URL and its behaviour per candidate certId (`none` = any). -/
+structure Srv where
+  url : Str
+  rules : List (Option Nat × Fetch × Bool)     -- selector, behaviour, observable
+
+def parseRule (s : String) : Option (Option Nat × Fetch × Bool) :=
+  match s.splitOn ":" with
+  | [sel, beh] => do
+    let sel ← if sel = "*" then some none else sel.toNat?.map some
+    if beh = "X" then pure (sel, Fetch.error, false) else
+    let beh ← parseFetch beh
+    pure (sel, beh, true)
+  | _ => none
+
+def parseSrv (s : String) : Option Srv :=
+  match s.splitOn "=" with
+  | [u, rules] => do
+    let u ← strOfHex u
+    let rules ← listOf "|" parseRule rules
+    pure { url := u, rules := rules }
+  | _ => none
+
+def ruleOf (srvs : List Srv) (s : Str) (c : Cand) : Option (Option Nat × Fetch × Bool) :=
+  match srvs.find? (fun x => x.url == s) with
+  | none => none
+  | some x => x.rules.find? (fun r => match r.1 with | none => true | some id => id == c.certId)
+
+def answerOf (srvs : List Srv) (s : Str) (c : Cand) : Fetch :=
+  match ruleOf srvs s c with
+  | none => .error
+  | some r => r.2.1
+
+def observable (srvs : List Srv) (q : Str × Cand) : Bool :=
+  match ruleOf srvs q.1 q.2 with
+  | none => false
+  | some r => r.2.2
+
+def statusStr : CertStatus → String
+  | .good => "g" | .revoked => "r" | .unknown => "u"
+
+def optNatStr : Option Nat → String
+  | none => "n" | some n => toString n
+
+def hexOfStr (s : Str) : String := toHex (s.map (fun c => UInt8.ofNat c.toNat))
+
+def reqStr (servers : List Str) (cands : List Cand) (reqs : List (Str × Cand)) : String :=
+  if reqs.isEmpty then "-" else
+  ",".intercalate (reqs.map (fun q => toString (servers.idxOf q.1) ++ "." ++ toString (cands.idxOf q.2)))
+
+def step (s : State) (ws : List String) : State × String :=
+  match ws with
+  | ["flush"] => ({ table := Cache.flush s.table }, "ok")
+  | ["evict", d, now, nu] =>
+    match d.toNat?, now.toNat?, optOf String.toNat? nu with
+    | some d, some now, some nu => (s, toString (lifetime ocspFacts d now nu))
+    | _, _, _ => (s, "bad-op")
+  | ["filter", u] =>
+    match strOfHex u with
+    | some u => (s, if isHttp ocspFacts u then "1" else "0")
+    | none => (s, "bad-op")
+  | ["key", iss, subj, ser] =>
+    match strOfHex iss, strOfHex subj, ser.toNat? with
+    | some iss, some subj, some ser =>
+      (s, hexOfStr (mkKey ocspFacts { issuer := iss, subject := subj, serial := ser, servers := [] }))
+    | _, _, _ => (s, "bad-op")
+  | ["parse", ser, cands, body] =>
+    match ser.toNat?, listOf ";" parseCand cands, parseFetch body with
+    | some ser, some cands, some (.body b) =>
+      match parseOcsp ocspFacts Vd { issuer := [], subject := [], serial := ser, servers := [] } cands b with
+      | none => (s, "none")
+      | some p => (s, statusStr p.status ++ " nu=" ++ optNatStr p.nextUpdate)
+    | _, _, _ => (s, "bad-op")
+  | ["look", strict, d, t, cert, chain, servers] =>
+    match bool01 strict, d.toNat?, t.toNat?, listOf ";" parseSrv servers, listOf ";" parseChainCert chain with
+    | some strict, some d, some t, some srvs, some chain =>
+      match parseCert cert (srvs.map (·.url)) with
+      | some cert =>
+        let cands := (candidates cert chain).map ChainCert.cand
+        let T := Cache.sweep s.table t
+        let o := lookup ocspFacts Vd { strict := strict, defaultDur := d } cert cands (answerOf srvs) t T
+        ({ table := o.table },
+         o.result.toString ++ " req=" ++ reqStr cert.servers cands (o.requests.filter (observable srvs)) ++ " hit=" ++ (if o.hit then "1" else "0") ++
+         " store=" ++ (match o.stored with | none => "-" | some l => toString l) ++ " cands=" ++ toString cands.length)
+      | none => (s, "bad-op")
+    | _, _, _, _, _ => (s, "bad-op")
+  | _ => (s, "bad-op")
 
 end Crv.Driver.Ocsp
